@@ -115,7 +115,14 @@ _ONE_TO_ONE_INSTRUCTIONS = frozenset(
     ]
 )
 
-_REVERT_POSTAMBLE = [Label("revert"), *PUSH(0), "DUP1", "REVERT"]
+
+
+def _revert_postamble() -> list[AssemblyInstruction]:
+    # NOTE: must be built at codegen time rather than at import time, since
+    # `PUSH(0)` depends on the evm version being compiled for (PUSH0 does
+    # not exist before shanghai).
+    return [Label("revert"), *PUSH(0), "DUP1", "REVERT"]
+
 
 # Name of the assembler-level CONST used by the `initial_fmp` Venom opcode.
 # The CONST is declared at the end of assembly generation (after spill
@@ -250,7 +257,7 @@ class VenomCompiler:
         if self._uses_initial_fmp_const:
             asm = [CONST(_INITIAL_FMP_CONST, self._initial_fmp_value())] + asm
 
-        asm.extend(_REVERT_POSTAMBLE)
+        asm.extend(_revert_postamble())
         # Append data segment
         for data_section in self.ctx.data_segment:
             label = data_section.label
